@@ -35,6 +35,15 @@ Definition is_failst (s : status) : bool := match s with SFailure | SFailureV =>
 Definition recd (d : dstate) (nd : node) (x : name) : Prop :=
   final d x /\ (is_failst (st_of d x) = true -> In x (n_bad nd)) /\ (st_of d x = SIgnore -> In x (n_ign nd)).
 
+(* calc_dep c of the node is finished and, if its saved values are visible, they were merged into the
+   node's dependency lists (TaskDispatcher._process_calc_dep_results) *)
+Definition merged (nd : node) (c : name) : Prop :=
+  incl (t_calc_new_task (get_task c)) (n_all_task nd) /\ incl (t_calc_new_impl (get_task c)) (n_all_task nd) /\
+  incl (t_calc_new_calc (get_task c)) (n_all_calc nd).
+Definition mrgd (d : dstate) (nd : node) (c : name) : Prop :=
+  final d c /\ (calc_values_visible (st_of d c) = true -> merged nd c).
+Definition inflight_calc (p : pc) : list name := match p with PCalc _ calcs _ => calcs | _ => [] end.
+
 Definition late (p : pc) : bool :=
   match p with PLoop | PCalc _ _ _ | PTask _ _ => false | _ => true end.
 Definition inflight (p : pc) : list name :=
@@ -58,7 +67,9 @@ Record node_ok (d : dstate) (me : name) (nd : node) : Prop := {
              forall x, In x (t_setup (get_task me)) -> In x (n_wrun nd) \/ recd d nd x;
   ok_wsel : n_wsel nd = false;
   ok_early : early (n_pc nd) = true -> n_st nd = SNone;
-  ok_sst : in_setup (n_pc nd) = true -> n_st nd = SRun
+  ok_sst : in_setup (n_pc nd) = true -> n_st nd = SRun;
+  ok_mrg : forall c, In c (n_all_calc nd) ->
+           In c (n_pend_calc nd) \/ In c (inflight_calc (n_pc nd)) \/ In c (n_wcalc nd) \/ mrgd d nd c
 }.
 
 Definition Inv (d : dstate) : Prop :=
@@ -80,13 +91,24 @@ Lemma recd_final d nd x : recd d nd x -> final d x.
 Proof. intros H. apply H. Qed.
 Lemma recd_fields d nd nd' x : n_bad nd' = n_bad nd -> n_ign nd' = n_ign nd -> recd d nd x -> recd d nd' x.
 Proof. unfold recd. intros -> ->. auto. Qed.
-#[local] Hint Resolve recd_mono mono_final recd_final : core.
+Lemma mrgd_mono d d' nd c : mono d d' -> mrgd d nd c -> mrgd d' nd c.
+Proof. intros Hm (A & B). split; [eapply mono_final; eauto|]. rewrite (Hm c A). exact B. Qed.
+Lemma merged_incl nd nd' c : incl (n_all_task nd) (n_all_task nd') -> incl (n_all_calc nd) (n_all_calc nd') ->
+  merged nd c -> merged nd' c.
+Proof. intros I1 I2 (A & B & C). repeat split; eapply incl_tran; eauto. Qed.
+Lemma mrgd_incl d nd nd' c : incl (n_all_task nd) (n_all_task nd') -> incl (n_all_calc nd) (n_all_calc nd') ->
+  mrgd d nd c -> mrgd d nd' c.
+Proof. intros I1 I2 (A & B). split; auto. intros V. eapply merged_incl; eauto. Qed.
+Lemma mrgd_fields d nd nd' c : n_all_task nd' = n_all_task nd -> n_all_calc nd' = n_all_calc nd -> mrgd d nd c -> mrgd d nd' c.
+Proof. intros E1 E2. apply mrgd_incl; [rewrite E1|rewrite E2]; apply incl_refl. Qed.
+#[local] Hint Resolve recd_mono mrgd_mono mono_final recd_final : core.
 
 Lemma node_ok_mono d d' me nd : mono d d' -> node_ok d me nd -> node_ok d' me nd.
 Proof.
-  intros Hm [H1 H2 H3 H4]. split; auto.
+  intros Hm [H1 H2 H3 H4 H5 H6 H7]. split; auto.
   - intros x Hx. destruct (H1 x Hx) as [H|[H|[H|H]]]; eauto 6.
   - intros Hp x Hx. destruct (H3 Hp x Hx); eauto.
+  - intros c Hc. destruct (H7 c Hc) as [H|[H|[H|H]]]; eauto 6.
 Qed.
 
 Lemma mono_of_st d d' : (forall x, st_of d' x = st_of d x) -> mono d d'.
@@ -119,7 +141,9 @@ Record node_okw (d : dstate) (nd : node) : Prop := {
   okw_late : late (n_pc nd) = true -> n_pend_task nd = [] /\ n_pend_calc nd = [] /\ n_wcalc nd = [];
   okw_wsel : n_wsel nd = false;
   okw_early : early (n_pc nd) = true -> n_st nd = SNone;
-  okw_sst : in_setup (n_pc nd) = true -> n_st nd = SRun
+  okw_sst : in_setup (n_pc nd) = true -> n_st nd = SRun;
+  okw_mrg : forall c, In c (n_all_calc nd) ->
+           In c (n_pend_calc nd) \/ In c (inflight_calc (n_pc nd)) \/ In c (n_wcalc nd) \/ mrgd d nd c
 }.
 
 Lemma node_ok_okw d me nd : node_ok d me nd -> node_okw d nd.
@@ -127,8 +151,9 @@ Proof. intros [H1 H2 H3 H4]. split; auto. intros Hl. destruct (H2 Hl) as (A & B 
 
 Lemma node_okw_mono d d' nd : mono d d' -> node_okw d nd -> node_okw d' nd.
 Proof.
-  intros Hm [H1 H2 H3]. split; auto.
-  intros x Hx. destruct (H1 x Hx) as [H|[H|[H|H]]]; eauto 6.
+  intros Hm [H1 H2 H3 H4 H5 H6]. split; auto.
+  - intros x Hx. destruct (H1 x Hx) as [H|[H|[H|H]]]; eauto 6.
+  - intros c Hc. destruct (H6 c Hc) as [H|[H|[H|H]]]; eauto 6.
 Qed.
 
 Lemma node_ok_wme d me nd w : node_ok d me nd -> node_ok d me (nd_wme nd w).
@@ -240,11 +265,10 @@ Proof. destruct s; simpl; repeat split; reflexivity. Qed.
 Lemma process_calc_okw d nd c s :
   late (n_pc nd) = false -> node_okw d nd -> node_okw d (process_calc nd c s).
 Proof.
-  intros Hl [H1 H2 H3]. unfold Dispatch.process_calc. destruct (calc_values_visible s); [|split; auto].
+  intros Hl [H1 H2 H3 H4 H5 H6]. unfold Dispatch.process_calc. destruct (calc_values_visible s); [|split; auto].
   set (all1 := n_all_task nd ++ t_calc_new_task (get_task c)).
   set (impl := fold_left add_if_new (t_calc_new_impl (get_task c)) all1).
   set (newc := filter _ _).
-  split; simpl; auto; [|rewrite Hl; discriminate].
   assert (Himpl : exists ext, impl = n_all_task nd ++ ext).
   { unfold impl, all1. generalize (t_calc_new_impl (get_task c)).
     generalize (t_calc_new_task (get_task c)). intros l0 l.
@@ -253,16 +277,25 @@ Proof.
     - unfold add_if_new at 2. destruct (mem a (n_all_task nd ++ l0)).
       + apply IH.
       + rewrite <- app_assoc. apply IH. }
-  destruct Himpl as [ext Hext]. rewrite Hext.
-  rewrite skipn_app, skipn_all, Nat.sub_diag. simpl.
-  intros x Hx. rewrite !in_app_iff in Hx.
-  destruct Hx as [[Hx|Hx]|[Hx|Hx]].
-  - destruct (H1 x) as [H|[H|[H|H]]]; rewrite ?in_app_iff in *; auto.
-    destruct H; auto.
-  - left. rewrite !in_app_iff. auto.
-  - destruct (H1 x) as [H|[H|[H|H]]]; rewrite ?in_app_iff in *; auto.
-    destruct H; auto.
-  - left. rewrite !in_app_iff. auto.
+  destruct Himpl as [ext Hext].
+  split; simpl; auto.
+  - rewrite Hext.
+    rewrite skipn_app, skipn_all, Nat.sub_diag. simpl.
+    intros x Hx. rewrite !in_app_iff in Hx.
+    destruct Hx as [[Hx|Hx]|[Hx|Hx]].
+    + destruct (H1 x) as [H|[H|[H|H]]]; rewrite ?in_app_iff in *; auto.
+      destruct H; auto.
+    + left. rewrite !in_app_iff. auto.
+    + destruct (H1 x) as [H|[H|[H|H]]]; rewrite ?in_app_iff in *; auto.
+      destruct H; auto.
+    + left. rewrite !in_app_iff. auto.
+  - rewrite Hl; discriminate.
+  - intros c0 Hc0. rewrite in_app_iff in Hc0. destruct Hc0 as [Hc0|Hc0]; [|left; apply in_app_iff; right; exact Hc0].
+    destruct (H6 c0 Hc0) as [H|[H|[H|H]]]; auto.
+    + left. apply in_app_iff. left. exact H.
+    + right; right; right. eapply mrgd_incl; [| |exact H]; simpl.
+      * rewrite Hext. apply incl_appl, incl_refl.
+      * apply incl_appl, incl_refl.
 Qed.
 
 Lemma fold_add_if_new_ext (l : list name) : forall a l0, exists ext, fold_left add_if_new l (a ++ l0) = a ++ ext.
@@ -288,10 +321,11 @@ Lemma node_okw_wait d nd wr wc :
   (late (n_pc nd) = true -> wc = []) ->
   node_okw d nd -> node_okw d (nd_wait nd wr wc).
 Proof.
-  intros Hr Hc Hl [H1 H2 H3]. split; simpl; auto.
+  intros Hr Hc Hl [H1 H2 H3 H4 H5 H6]. split; simpl; auto.
   - intros x Hx. destruct (H1 x Hx) as [H|[H|[H|H]]]; auto.
     right; right; left. rewrite in_app_iff in *. destruct H; auto.
   - intros L. destruct (H2 L) as (A & B & C). auto.
+  - intros c Hc0. destruct (H6 c Hc0) as [H|[H|[H|H]]]; auto.
 Qed.
 
 Lemma node_okw_wme d nd w : node_okw d nd -> node_okw d (nd_wme nd w).
@@ -310,9 +344,34 @@ Proof.
 Qed.
 Lemma parent_status_okw d nd dep s : node_okw d nd -> node_okw d (parent_status nd dep s).
 Proof.
-  intros [H1 H2 H3]. destruct (parent_status_fields nd dep s) as (P1 & P2 & P3 & P4 & P5 & P6 & P7 & P8 & P9).
+  intros [H1 H2 H3 H4 H5 H6]. destruct (parent_status_fields nd dep s) as (P1 & P2 & P3 & P4 & P5 & P6 & P7 & P8 & P9).
   split; rewrite ?P1, ?P2, ?P3, ?P4, ?P5, ?P6, ?P7, ?P8, ?P9; auto.
-  intros x Hx. destruct (H1 x Hx) as [H|[H|[H|H]]]; auto. right; right; right. apply recd_parent. exact H.
+  - intros x Hx. destruct (H1 x Hx) as [H|[H|[H|H]]]; auto. right; right; right. apply recd_parent. exact H.
+  - intros c Hc. destruct (H6 c Hc) as [H|[H|[H|H]]]; auto. right; right; right.
+    apply (mrgd_fields d nd); auto.
+Qed.
+
+Lemma fold_add_if_new_In (l : list name) : forall acc x, In x (fold_left add_if_new l acc) <-> In x acc \/ In x l.
+Proof.
+  induction l as [|a l IH]; intros acc x; simpl; [tauto|].
+  rewrite IH. unfold add_if_new. destruct (mem a acc) eqn:E.
+  - apply mem_In in E. split; intros H; intuition (subst; auto).
+  - rewrite in_app_iff. simpl. split; intros H; intuition auto.
+Qed.
+
+Lemma process_calc_mrg nd c cst :
+  calc_values_visible cst = true ->
+  incl (t_calc_new_task (get_task c)) (n_all_task (process_calc nd c cst)) /\
+  incl (t_calc_new_impl (get_task c)) (n_all_task (process_calc nd c cst)) /\
+  incl (t_calc_new_calc (get_task c)) (n_all_calc (process_calc nd c cst)).
+Proof.
+  intros Hv. unfold Dispatch.process_calc. rewrite Hv. cbv zeta. simpl.
+  set (tc := get_task c).
+  repeat split.
+  - intros x Hx. apply fold_add_if_new_In. left. apply in_app_iff. auto.
+  - intros x Hx. apply fold_add_if_new_In. auto.
+  - intros x Hx. rewrite in_app_iff. destruct (mem x (n_all_calc nd)) eqn:E; [left; apply mem_In; exact E|right].
+    apply filter_In. split; [apply fold_add_if_new_In; auto|rewrite E; reflexivity].
 Qed.
 
 Lemma add_wait_one_spec d me x calc :
@@ -320,7 +379,8 @@ Lemma add_wait_one_spec d me x calc :
   let d' := add_wait_one d me x calc in
   InvExcept d' me /\ awr_rel calc d d' me /\
   (In x (wait_of calc (node_of d' me)) \/ recd d' (node_of d' me) x) /\
-  (forall y, In y (wait_of calc (node_of d' me)) -> y = x \/ In y (wait_of calc (node_of d me))).
+  (forall y, In y (wait_of calc (node_of d' me)) -> y = x \/ In y (wait_of calc (node_of d me))) /\
+  (calc = true -> In x (n_wcalc (node_of d' me)) \/ mrgd d' (node_of d' me) x).
 Proof.
   intros [HO HM] Hcalc. cbv zeta. unfold Dispatch.add_wait_one.
   destruct (unfinished (st_of d x)) eqn:Eu.
@@ -341,7 +401,7 @@ Proof.
       - rewrite node_of_set_other by auto. exists (n_wme (node_of d me)). destruct (node_of d me); reflexivity. }
     destruct Hnd1 as [w1 Hnd1].
     assert (Hokw1 : node_okw d nd1) by (rewrite Hnd1; apply node_okw_wme; exact HM).
-    split; [split|split; [split|split]].
+    split; [split|split; [split|split; [|split]]].
     + (* others *)
       intros z nd Hz Hnd. rewrite nodes_set_other in Hnd by auto.
       eapply node_ok_mono; [apply mono_of_st; exact Hst2|].
@@ -380,6 +440,7 @@ Proof.
     + left. rewrite node_of_set_same. unfold ndm, wait_of. destruct calc; simpl; apply addset_In; auto.
     + intros y. rewrite node_of_set_same. unfold ndm, wait_of. destruct calc; simpl; rewrite Hnd1; simpl;
         intros Hy; apply addset_In in Hy; destruct Hy; auto.
+    + intros ->. left. rewrite node_of_set_same. unfold ndm. simpl. apply addset_In. auto.
   - (* x already finished: take its status (and its calc results) *)
     set (nd0 := node_of d me).
     set (nd1 := parent_status nd0 x (st_of d x)).
@@ -391,7 +452,7 @@ Proof.
     assert (Hst2 : forall z, st_of (set_node d me ndm) z = st_of d z).
     { intro z. apply st_set_node_same_st. unfold ndm. destruct calc; [rewrite g5|]; exact f9. }
     assert (Hokw1 : node_okw d nd1) by (apply parent_status_okw; exact HM).
-    split; [split|split; [split|split]].
+    split; [split|split; [split|split; [|split]]].
     + intros z nd Hz Hnd. rewrite nodes_set_other in Hnd by auto.
       eapply node_ok_mono; [apply mono_of_st; exact Hst2|]. apply HO; auto.
     + rewrite node_of_set_same.
@@ -422,6 +483,9 @@ Proof.
     + intros y. rewrite node_of_set_same. unfold ndm, wait_of. destruct calc.
       * rewrite g4, f4. auto.
       * rewrite f3. auto.
+    + intros ->. right. rewrite node_of_set_same. unfold ndm.
+      apply (mrgd_mono d); [apply mono_of_st; exact Hst2|]. split; [exact Eu|].
+      intros V. destruct (process_calc_mrg nd1 x (st_of d x) V) as (M1 & M2 & M3). repeat split; auto.
 Qed.
 
 Lemma wait_of_inc calc d d' me y :
@@ -434,28 +498,39 @@ Proof.
   split; intros H; [apply (ar_bad _ _ _ _ A)|apply (ar_ign _ _ _ _ A)]; auto.
 Qed.
 
+Lemma mrgd_awr calc d d' me c : awr_rel calc d d' me -> mrgd d (node_of d me) c -> mrgd d' (node_of d' me) c.
+Proof.
+  intros A (F & M). unfold mrgd, final. rewrite (ar_st _ _ _ _ A). split; [exact F|].
+  intros V. destruct (ar_all _ _ _ _ A me) as [I1 I2]. eapply merged_incl; eauto.
+Qed.
+
 Lemma add_wait_run_spec l : forall d me calc,
   InvExcept d me -> (calc = true -> late (n_pc (node_of d me)) = false) ->
   let d' := add_wait_run d me l calc in
   InvExcept d' me /\ awr_rel calc d d' me /\
   (forall x, In x l -> In x (wait_of calc (node_of d' me)) \/ recd d' (node_of d' me) x) /\
-  (forall y, In y (wait_of calc (node_of d' me)) -> In y l \/ In y (wait_of calc (node_of d me))).
+  (forall y, In y (wait_of calc (node_of d' me)) -> In y l \/ In y (wait_of calc (node_of d me))) /\
+  (calc = true -> forall x, In x l -> In x (n_wcalc (node_of d' me)) \/ mrgd d' (node_of d' me) x).
 Proof.
   induction l as [|x r IH]; intros d me calc HI Hc; cbn [Dispatch.add_wait_run]; cbv zeta.
-  - split; [exact HI|]. split; [apply awr_rel_refl|]. split; [intros ? []|]. intros y Hy. right. exact Hy.
-  - destruct (add_wait_one_spec d me x calc HI Hc) as (HI1 & R1 & P1 & Q1).
+  - split; [exact HI|]. split; [apply awr_rel_refl|]. split; [intros ? []|]. split; [|intros _ ? []]. intros y Hy. right. exact Hy.
+  - destruct (add_wait_one_spec d me x calc HI Hc) as (HI1 & R1 & P1 & Q1 & M1).
     set (d1 := add_wait_one d me x calc) in *.
     assert (Hc1 : calc = true -> late (n_pc (node_of d1 me)) = false)
       by (intro E; rewrite (ar_pc _ _ _ _ R1); auto).
-    destruct (IH d1 me calc HI1 Hc1) as (HI2 & R2 & P2 & Q2). cbv zeta in *.
+    destruct (IH d1 me calc HI1 Hc1) as (HI2 & R2 & P2 & Q2 & M2). cbv zeta in *.
     set (d2 := add_wait_run d1 me r calc) in *.
-    split; [exact HI2|]. split; [eapply awr_rel_trans; eauto|]. split.
+    split; [exact HI2|]. split; [eapply awr_rel_trans; eauto|]. split; [|split].
     + intros y [<-|Hy]; [|apply P2; exact Hy].
       destruct P1 as [P1|P1].
       * left. eapply wait_of_inc; eauto.
       * right. eapply recd_awr; eauto.
     + intros y Hy. destruct (Q2 y Hy) as [H|H]; [left; right; exact H|].
       destruct (Q1 y H) as [->|H']; [left; left; reflexivity|right; exact H'].
+    + intros Ec y [<-|Hy]; [|apply M2; auto].
+      destruct (M1 Ec) as [H|H].
+      * left. apply (ar_wcalc_inc _ _ _ _ R2). exact H.
+      * right. eapply mrgd_awr; eauto.
 Qed.
 
 (* ---------- re-establishing the invariant after the current node was updated ---------- *)
@@ -550,6 +625,9 @@ Definition deps_recd (d : dstate) (me : name) : Prop :=
   forall x, In x (n_all_task (node_of d me) ++ n_all_calc (node_of d me)) -> recd d (node_of d me) x.
 Definition setup_recd (d : dstate) (me : name) : Prop :=
   forall x, In x (t_setup (get_task me)) -> recd d (node_of d me) x.
+(* ... and the visible results of every calc_dep were merged into the node's lists *)
+Definition calcs_mrgd (d : dstate) (me : name) : Prop :=
+  forall c, In c (n_all_calc (node_of d me)) -> mrgd d (node_of d me) c.
 
 Lemma node_okw_pc d me nd p :
   node_okw d nd ->
@@ -559,11 +637,14 @@ Lemma node_okw_pc d me nd p :
   (p = PSetupWaited -> forall x, In x (t_setup (get_task me)) -> In x (n_wrun nd) \/ recd d nd x) ->
   (early p = true -> early (n_pc nd) = true) ->
   (in_setup p = true -> n_st nd = SRun) ->
+  (forall c, In c (inflight_calc (n_pc nd)) -> In c (inflight_calc p) \/ In c (n_wcalc nd) \/ mrgd d nd c) ->
   node_ok d me (nd_pc nd p).
 Proof.
-  intros [H1 H2 H3 H4] Hin Hl Hs He Hss. split; simpl; auto.
-  intros x Hx. destruct (H1 x Hx) as [H|[H|[H|H]]]; auto.
-  destruct (Hin x H) as [H'|[H'|H']]; auto.
+  intros [H1 H2 H3 H4 H5 H6] Hin Hl Hs He Hss Hic. split; simpl; auto.
+  - intros x Hx. destruct (H1 x Hx) as [H|[H|[H|H]]]; auto.
+    destruct (Hin x H) as [H'|[H'|H']]; auto.
+  - intros c Hc. destruct (H6 c Hc) as [H|[H|[H|H]]]; auto.
+    destruct (Hic c H) as [H'|[H'|H']]; auto.
 Qed.
 
 Lemma Pre_step d d' me :
@@ -599,7 +680,7 @@ Definition step_post (d d' : dstate) (me : name) (y : gyield) : Prop :=
                 (n_pc (node_of d' me) = PAfterSelf \/ n_pc (node_of d' me) = PDone) /\
                 (n_pc (node_of d' me) = PAfterSelf -> st_of d' me = SNone) /\
                 deps_recd d' me /\ (n_pc (node_of d' me) = PDone -> setup_recd d' me) /\
-                (n_pc (node_of d' me) = PDone -> st_of d' me = SRun)).
+                (n_pc (node_of d' me) = PDone -> st_of d' me = SRun) /\ calcs_mrgd d' me).
 
 Lemma step_post_trans d d1 d' me y :
   step_rel d d1 me -> step_post d1 d' me y -> step_post d d' me y.
@@ -638,17 +719,19 @@ Lemma set_pc_Inv_same d me p :
   Inv d ->
   inflight p = inflight (n_pc (node_of d me)) -> late p = late (n_pc (node_of d me)) ->
   early p = early (n_pc (node_of d me)) -> in_setup p = in_setup (n_pc (node_of d me)) ->
+  inflight_calc p = inflight_calc (n_pc (node_of d me)) ->
   p <> PSetupWaited -> n_pc (node_of d me) <> PSetupWaited ->
   Inv (set_pc d me p).
 Proof.
-  intros HI Ei El Ee Es Hp Hq. unfold Dispatch.set_pc. apply Inv_set_node; auto.
-  destruct (node_of_ok d me HI) as [H1 H2 H3 H4 H5 H6].
+  intros HI Ei El Ee Es Eic Hp Hq. unfold Dispatch.set_pc. apply Inv_set_node; auto.
+  destruct (node_of_ok d me HI) as [H1 H2 H3 H4 H5 H6 H7].
   split; simpl; auto.
   - rewrite Ei. exact H1.
   - rewrite El. intros L. destruct (H2 L) as (A & B & C & D). auto.
   - intros E. contradiction.
   - rewrite Ee. exact H5.
   - rewrite Es. exact H6.
+  - rewrite Eic. exact H7.
 Qed.
 
 Lemma set_pc_rel d me p : step_rel d (set_pc d me p) me.
@@ -666,7 +749,7 @@ Proof.
   assert (REC : forall d1, Inv d1 -> step_rel d d1 me -> Pre d1 -> resumable d1 me ->
                 gen_step fuel d1 me = (y, d') -> step_post d d' me y).
   { intros d1 I1 R1 P1 Q1 G1. eapply step_post_trans; eauto. }
-  pose proof (node_of_ok d me HI) as Hok. destruct Hok as [Hacc Hlate Hsetup Hwsel Hearly Hsst].
+  pose proof (node_of_ok d me HI) as Hok. destruct Hok as [Hacc Hlate Hsetup Hwsel Hearly Hsst Hmrg].
   destruct (n_pc (node_of d me)) as [|rest calcs tks|rest tks| | | |rest| |] eqn:Epc.
   - (* PLoop *)
     set (nd := node_of d me) in *.
@@ -674,10 +757,12 @@ Proof.
     set (nd' := nd_pc (nd_deps nd [] [] (n_all_task nd) (n_all_calc nd)) (PCalc calcs calcs (n_pend_task nd))) in *.
     assert (Hok' : node_ok d me nd').
     { split; simpl; auto; try discriminate.
-      intros x Hx. destruct (Hacc x Hx) as [H|[H|[H|H]]];
-        [|destruct H|auto|auto].
-      right; left. rewrite in_app_iff in *. destruct H as [H|H]; auto.
-      left. unfold calcs. apply sort_by_In. exact H. }
+      - intros x Hx. destruct (Hacc x Hx) as [H|[H|[H|H]]];
+          [|destruct H|auto|auto].
+        right; left. rewrite in_app_iff in *. destruct H as [H|H]; auto.
+        left. unfold calcs. apply sort_by_In. exact H.
+      - intros c Hc. destruct (Hmrg c Hc) as [H|[H|[H|H]]]; [|destruct H|auto|auto].
+        right; left. unfold calcs. apply sort_by_In. exact H. }
     apply (REC (set_node d me nd')); auto.
     + apply Inv_set_node; auto.
     + apply step_rel_set_node; [reflexivity|apply incl_refl|apply incl_refl].
@@ -687,12 +772,12 @@ Proof.
   - (* PCalc *)
     destruct rest as [|c r].
     + (* all calc_dep nodes requested: register the waits *)
-      destruct (add_wait_run_spec calcs d me true (Inv_InvExcept d me HI)) as (HE & RA & PA & QA).
+      destruct (add_wait_run_spec calcs d me true (Inv_InvExcept d me HI)) as (HE & RA & PA & QA & MA).
       { intros _. rewrite Epc. reflexivity. }
       cbv zeta in *. set (d1 := add_wait_run d me calcs true) in *.
       assert (Hpc1 : n_pc (node_of d1 me) = PCalc [] calcs tks) by (rewrite (ar_pc _ _ _ _ RA); exact Epc).
       assert (Hok' : node_ok d1 me (nd_pc (node_of d1 me) (PTask tks tks))).
-      { apply node_okw_pc; [apply HE| | simpl; discriminate | discriminate | first [simpl; discriminate | intros _; rewrite Hpc1; reflexivity] | first [simpl; discriminate | intros _; apply (okw_sst _ _ (proj2 HE)); rewrite Hpc1; reflexivity]].
+      { apply node_okw_pc; [apply HE| | simpl; discriminate | discriminate | first [simpl; discriminate | intros _; rewrite Hpc1; reflexivity] | first [simpl; discriminate | intros _; apply (okw_sst _ _ (proj2 HE)); rewrite Hpc1; reflexivity] | first [rewrite Hpc1; simpl; intros c0 Hc0; destruct (MA eq_refl c0 Hc0); auto | rewrite Hpc1; simpl; intros c0 []]].
         rewrite Hpc1. simpl. intros x Hx. rewrite in_app_iff in Hx. destruct Hx as [Hx|Hx]; auto.
         destruct (PA x Hx) as [H|H]; auto. right; left. rewrite in_app_iff. right. exact H. }
       apply (REC (set_pc d1 me (PTask tks tks))); auto.
@@ -719,14 +804,14 @@ Proof.
       * inversion Hg; subst. split; [first [intros k Ek; discriminate | intros k Ek; inversion Ek; subst; destruct (K1 eq_refl) as (Kne & Kpc & Kfresh & Kex); split; [unfold resumable; unfold Dispatch.set_pc; rewrite node_of_set_other by auto; rewrite Kpc; discriminate | split; [unfold Dispatch.set_pc; apply nodes_set_ex; exact Kex | intros z Hz Ez; subst; congruence]]]|]. split; auto. split; [apply step_rel_refl|]. split; auto. split; auto. discriminate.
   - (* PTask *)
     destruct rest as [|c r].
-    + destruct (add_wait_run_spec tks d me false (Inv_InvExcept d me HI)) as (HE & RA & PA & QA).
+    + destruct (add_wait_run_spec tks d me false (Inv_InvExcept d me HI)) as (HE & RA & PA & QA & MA).
       { discriminate. }
       cbv zeta in *. set (d1 := add_wait_run d me tks false) in *.
       assert (Hpc1 : n_pc (node_of d1 me) = PTask [] tks) by (rewrite (ar_pc _ _ _ _ RA); exact Epc).
       assert (RS : step_rel d d1 me) by (eapply step_rel_of_awr; eauto).
       (* back to the top of the loop (more deps arrived, or something to wait for) *)
       assert (HokL : node_ok d1 me (nd_pc (node_of d1 me) PLoop)).
-      { apply node_okw_pc; [apply HE| | simpl; discriminate | discriminate | first [simpl; discriminate | intros _; rewrite Hpc1; reflexivity] | first [simpl; discriminate | intros _; apply (okw_sst _ _ (proj2 HE)); rewrite Hpc1; reflexivity]].
+      { apply node_okw_pc; [apply HE| | simpl; discriminate | discriminate | first [simpl; discriminate | intros _; rewrite Hpc1; reflexivity] | first [simpl; discriminate | intros _; apply (okw_sst _ _ (proj2 HE)); rewrite Hpc1; reflexivity] | first [rewrite Hpc1; simpl; intros c0 Hc0; destruct (MA eq_refl c0 Hc0); auto | rewrite Hpc1; simpl; intros c0 []]].
         rewrite Hpc1. simpl. intros x Hx.
         destruct (PA x Hx) as [H|H]; auto. right; left. rewrite in_app_iff. left. exact H. }
       assert (IL : Inv (set_pc d1 me PLoop)) by (apply Inv_of_except; auto).
@@ -742,7 +827,7 @@ Proof.
         -- apply orb_negb_nil_false in Ep. apply orb_negb_nil_false in Ew.
            destruct Ep as [Ep1 Ep2]. destruct Ew as [Ew1 Ew2].
            assert (HokS : node_ok d1 me (nd_pc (node_of d1 me) PSelf)).
-           { apply node_okw_pc; [apply HE| | | discriminate | first [simpl; discriminate | intros _; rewrite Hpc1; reflexivity] | first [simpl; discriminate | intros _; apply (okw_sst _ _ (proj2 HE)); rewrite Hpc1; reflexivity]].
+           { apply node_okw_pc; [apply HE| | | discriminate | first [simpl; discriminate | intros _; rewrite Hpc1; reflexivity] | first [simpl; discriminate | intros _; apply (okw_sst _ _ (proj2 HE)); rewrite Hpc1; reflexivity] | first [rewrite Hpc1; simpl; intros c0 Hc0; destruct (MA eq_refl c0 Hc0); auto | rewrite Hpc1; simpl; intros c0 []]].
              - rewrite Hpc1. simpl. intros x Hx. destruct (PA x Hx) as [H|H]; auto.
                simpl in H. rewrite Ew1 in H. destruct H.
              - intros _. auto. }
@@ -782,16 +867,23 @@ Proof.
     split; [intros _; unfold resumable; rewrite set_pc_node; simpl; discriminate|].
     split; [congruence|]. intros _. unfold deps_final, setup_final, deps_recd, setup_recd. rewrite !set_pc_node. simpl.
     assert (Hm : mono d (set_pc d me PAfterSelf)) by (apply mono_of_st; apply (sr_st _ _ _ (set_pc_rel d me PAfterSelf))).
-    split; [|split; [discriminate|split; [auto|split; [|split; [|split; discriminate]]]]].
+    split; [|split; [discriminate|split; [auto|split; [|split; [|split; [discriminate|split; [discriminate|]]]]]]].
     + intros x Hx. eapply mono_final; [exact Hm|]. apply (recd_final d (node_of d me)). apply Hrec. exact Hx.
     + intros _. rewrite (sr_st _ _ _ (set_pc_rel d me PAfterSelf)). apply Hearly. reflexivity.
     + intros x Hx. apply (recd_mono d); [exact Hm|]. apply (recd_fields d (node_of d me)); [reflexivity|reflexivity|]. apply Hrec. exact Hx.
+    + unfold calcs_mrgd. rewrite set_pc_node. simpl. intros c Hc. apply (mrgd_mono d); [exact Hm|].
+      apply (mrgd_fields d (node_of d me)); [reflexivity|reflexivity|].
+      destruct (Hmrg c Hc) as [H|[H|[H|H]]]; auto.
+      * rewrite L2 in H. destruct H.
+      * destruct H.
+      * rewrite L3 in H. destruct H.
   - (* PAfterSelf *)
     destruct (Hlate eq_refl) as (L1 & L2 & L3 & L4). specialize (L4 ltac:(discriminate)).
     assert (Hokp : forall p, late p = true -> early p = false -> p <> PSetupWaited ->
                    (in_setup p = true -> n_st (node_of d me) = SRun) -> node_ok d me (nd_pc (node_of d me) p)).
     { intros p Lp Ep Np Hss. split; simpl; auto; try (intros E; contradiction); try (intros E; congruence); try (intros _; repeat split; auto).
-      all: try (intros x Hx; destruct (Hacc x Hx) as [H|[H|[H|H]]]; auto; destruct H). }
+      all: try (intros x Hx; destruct (Hacc x Hx) as [H|[H|[H|H]]]; auto; destruct H).
+      all: try (intros c Hc; destruct (Hmrg c Hc) as [H|[H|[H|H]]]; auto; destruct H). }
     destruct (is_nil (t_setup (get_task me))) eqn:Es.
     + inversion Hg; subst. split; [first [intros k Ek; discriminate | intros k Ek; inversion Ek; subst; destruct (K1 eq_refl) as (Kne & Kpc & Kfresh & Kex); split; [unfold resumable; unfold Dispatch.set_pc; rewrite node_of_set_other by auto; rewrite Kpc; discriminate | split; [unfold Dispatch.set_pc; apply nodes_set_ex; exact Kex | intros z Hz Ez; subst; congruence]]]|]. split; [apply Inv_set_node; auto; apply Hokp; [reflexivity|reflexivity|discriminate|first [discriminate | intros _; exact Est | intros _; reflexivity]]|].
       split; [apply set_pc_rel|]. split; [intros _; unfold resumable; rewrite set_pc_node; simpl; discriminate|].
@@ -809,7 +901,8 @@ Proof.
     assert (Hokp : forall p, late p = true -> early p = false -> p <> PSetupWaited ->
                    (in_setup p = true -> n_st (node_of d me) = SRun) -> node_ok d me (nd_pc (node_of d me) p)).
     { intros p Lp Ep Np Hss. split; simpl; auto; try (intros E; contradiction); try (intros E; congruence); try (intros _; repeat split; auto).
-      all: try (intros x Hx; destruct (Hacc x Hx) as [H|[H|[H|H]]]; auto; destruct H). }
+      all: try (intros x Hx; destruct (Hacc x Hx) as [H|[H|[H|H]]]; auto; destruct H).
+      all: try (intros c Hc; destruct (Hmrg c Hc) as [H|[H|[H|H]]]; auto; destruct H). }
     assert (Hend : (YEnd, set_pc d me PDone) = (y, d') -> step_post d d' me y).
     { intros E. inversion E; subst. split; [first [intros k Ek; discriminate | intros k Ek; inversion Ek; subst; destruct (K1 eq_refl) as (Kne & Kpc & Kfresh & Kex); split; [unfold resumable; unfold Dispatch.set_pc; rewrite node_of_set_other by auto; rewrite Kpc; discriminate | split; [unfold Dispatch.set_pc; apply nodes_set_ex; exact Kex | intros z Hz Ez; subst; congruence]]]|]. split; [apply Inv_set_node; auto; apply Hokp; [reflexivity|reflexivity|discriminate|first [discriminate | intros _; exact Est | intros _; reflexivity]]|].
       split; [apply set_pc_rel|]. split; [intros _; unfold resumable; rewrite set_pc_node; simpl; discriminate|].
@@ -824,7 +917,7 @@ Proof.
   - (* PSetup *)
     destruct (Hlate eq_refl) as (L1 & L2 & L3 & L4). specialize (L4 ltac:(discriminate)).
     destruct rest as [|c r].
-    + destruct (add_wait_run_spec (t_setup (get_task me)) d me false (Inv_InvExcept d me HI)) as (HE & RA & PA & QA).
+    + destruct (add_wait_run_spec (t_setup (get_task me)) d me false (Inv_InvExcept d me HI)) as (HE & RA & PA & QA & MA).
       { discriminate. }
       cbv zeta in *. set (d1 := add_wait_run d me (t_setup (get_task me)) false) in *.
       assert (Hpc1 : n_pc (node_of d1 me) = PSetup []) by (rewrite (ar_pc _ _ _ _ RA); exact Epc).
@@ -835,7 +928,7 @@ Proof.
       destruct (is_nil (n_wrun (node_of d1 me))) eqn:Ew.
       * apply is_nil_true in Ew. inversion Hg; subst. split; [first [intros k Ek; discriminate | intros k Ek; inversion Ek; subst; destruct (K1 eq_refl) as (Kne & Kpc & Kfresh & Kex); split; [unfold resumable; unfold Dispatch.set_pc; rewrite node_of_set_other by auto; rewrite Kpc; discriminate | split; [unfold Dispatch.set_pc; apply nodes_set_ex; exact Kex | intros z Hz Ez; subst; congruence]]]|].
         assert (HokD : node_ok d1 me (nd_pc (node_of d1 me) PDone)).
-        { apply node_okw_pc; [apply HE| | | discriminate | first [simpl; discriminate | intros _; rewrite Hpc1; reflexivity] | first [simpl; discriminate | intros _; apply (okw_sst _ _ (proj2 HE)); rewrite Hpc1; reflexivity]].
+        { apply node_okw_pc; [apply HE| | | discriminate | first [simpl; discriminate | intros _; rewrite Hpc1; reflexivity] | first [simpl; discriminate | intros _; apply (okw_sst _ _ (proj2 HE)); rewrite Hpc1; reflexivity] | first [rewrite Hpc1; simpl; intros c0 Hc0; destruct (MA eq_refl c0 Hc0); auto | rewrite Hpc1; simpl; intros c0 []]].
           - rewrite Hpc1. simpl. intros x [].
           - intros _. destruct Hlate1 as (A & B & C). repeat split; auto. }
         split; [apply Inv_of_except; auto|].
@@ -850,15 +943,21 @@ Proof.
           - destruct Hlate1 as (A & B & C). rewrite Ew, C in H. destruct H. }
         assert (Hrs : forall x, In x (t_setup (get_task me)) -> recd d1 (node_of d1 me) x).
         { intros x Hx. destruct (PA x Hx) as [H|H]; auto. simpl in H. rewrite Ew in H. destruct H. }
-        split; [|split; [|split; [auto|split; [discriminate|split; [|split]]]]].
+        split; [|split; [|split; [auto|split; [discriminate|split; [|split; [|split]]]]]].
         -- intros x Hx. eapply mono_final; [exact Hm|]. eapply recd_final. apply Hrec; exact Hx.
         -- intros _ x Hx. eapply mono_final; [exact Hm|]. eapply recd_final. apply Hrs; exact Hx.
         -- intros x Hx. apply (recd_mono d1); [exact Hm|]. apply (recd_fields d1 (node_of d1 me)); [reflexivity|reflexivity|]. apply Hrec; exact Hx.
         -- intros _ x Hx. apply (recd_mono d1); [exact Hm|]. apply (recd_fields d1 (node_of d1 me)); [reflexivity|reflexivity|]. apply Hrs; exact Hx.
         -- intros _. rewrite (sr_st _ _ _ (set_pc_rel d1 me PDone)). apply (okw_sst _ _ (proj2 HE)). rewrite Hpc1. reflexivity.
+        -- unfold calcs_mrgd. rewrite set_pc_node. simpl. intros c Hc. apply (mrgd_mono d1); [exact Hm|].
+           apply (mrgd_fields d1 (node_of d1 me)); [reflexivity|reflexivity|].
+           destruct (okw_mrg _ _ (proj2 HE) c Hc) as [H|[H|[H|H]]]; auto.
+           ++ destruct Hlate1 as (A & B & C). rewrite B in H. destruct H.
+           ++ rewrite Hpc1 in H. destruct H.
+           ++ destruct Hlate1 as (A & B & C). rewrite C in H. destruct H.
       * inversion Hg; subst. split; [first [intros k Ek; discriminate | intros k Ek; inversion Ek; subst; destruct (K1 eq_refl) as (Kne & Kpc & Kfresh & Kex); split; [unfold resumable; unfold Dispatch.set_pc; rewrite node_of_set_other by auto; rewrite Kpc; discriminate | split; [unfold Dispatch.set_pc; apply nodes_set_ex; exact Kex | intros z Hz Ez; subst; congruence]]]|].
         assert (HokW : node_ok d1 me (nd_pc (node_of d1 me) PSetupWaited)).
-        { apply node_okw_pc; [apply HE| | |  | first [simpl; discriminate | intros _; rewrite Hpc1; reflexivity] | first [simpl; discriminate | intros _; apply (okw_sst _ _ (proj2 HE)); rewrite Hpc1; reflexivity]].
+        { apply node_okw_pc; [apply HE| | |  | first [simpl; discriminate | intros _; rewrite Hpc1; reflexivity] | first [simpl; discriminate | intros _; apply (okw_sst _ _ (proj2 HE)); rewrite Hpc1; reflexivity] | first [rewrite Hpc1; simpl; intros c0 Hc0; destruct (MA eq_refl c0 Hc0); auto | rewrite Hpc1; simpl; intros c0 []]].
           - rewrite Hpc1. simpl. intros x [].
           - intros _. destruct Hlate1 as (A & B & C). repeat split; auto. intros E; contradiction.
           - intros _ x Hx. destruct (PA x Hx) as [H|H]; auto. }
@@ -889,7 +988,8 @@ Proof.
     assert (Lw : n_wrun (node_of d me) = []) by (apply HR; exact Epc).
     assert (Hok' : node_ok d me (nd_pc (node_of d me) PDone)).
     { split; simpl; auto; try discriminate; try (intros _; repeat split; auto).
-      all: try (intros x Hx; destruct (Hacc x Hx) as [H|[H|[H|H]]]; auto; destruct H). }
+      all: try (intros x Hx; destruct (Hacc x Hx) as [H|[H|[H|H]]]; auto; destruct H).
+      all: try (intros c Hc; destruct (Hmrg c Hc) as [H|[H|[H|H]]]; auto; destruct H). }
     split; [apply Inv_set_node; auto|]. split; [apply set_pc_rel|].
     split; [intros _; unfold resumable; rewrite set_pc_node; simpl; discriminate|].
     split; [congruence|]. intros _. unfold deps_final, setup_final, deps_recd, setup_recd. rewrite !set_pc_node. simpl.
@@ -901,12 +1001,18 @@ Proof.
       - rewrite Lw, L3 in H. destruct H. }
     assert (Hrs : forall x, In x (t_setup (get_task me)) -> recd d (node_of d me) x).
     { intros x Hx. destruct (Hsetup eq_refl x Hx) as [H|H]; auto. rewrite Lw in H. destruct H. }
-    split; [|split; [|split; [auto|split; [discriminate|split; [|split]]]]].
+    split; [|split; [|split; [auto|split; [discriminate|split; [|split; [|split]]]]]].
     + intros x Hx. eapply mono_final; [exact Hm|]. eapply recd_final. apply Hrec; exact Hx.
     + intros _ x Hx. eapply mono_final; [exact Hm|]. eapply recd_final. apply Hrs; exact Hx.
     + intros x Hx. apply (recd_mono d); [exact Hm|]. apply (recd_fields d (node_of d me)); [reflexivity|reflexivity|]. apply Hrec; exact Hx.
     + intros _ x Hx. apply (recd_mono d); [exact Hm|]. apply (recd_fields d (node_of d me)); [reflexivity|reflexivity|]. apply Hrs; exact Hx.
     + intros _. rewrite (sr_st _ _ _ (set_pc_rel d me PDone)). apply Hsst. reflexivity.
+    + unfold calcs_mrgd. rewrite set_pc_node. simpl. intros c Hc. apply (mrgd_mono d); [exact Hm|].
+      apply (mrgd_fields d (node_of d me)); [reflexivity|reflexivity|].
+      destruct (Hmrg c Hc) as [H|[H|[H|H]]]; auto.
+      * rewrite L2 in H. destruct H.
+      * destruct H.
+      * rewrite L3 in H. destruct H.
   - (* PDone *)
     inversion Hg; subst. split; [first [intros k Ek; discriminate | intros k Ek; inversion Ek; subst; destruct (K1 eq_refl) as (Kne & Kpc & Kfresh & Kex); split; [unfold resumable; unfold Dispatch.set_pc; rewrite node_of_set_other by auto; rewrite Kpc; discriminate | split; [unfold Dispatch.set_pc; apply nodes_set_ex; exact Kex | intros z Hz Ez; subst; congruence]]]|]. split; auto. split; [apply step_rel_refl|]. split; auto. split; auto. discriminate.
 Qed.
@@ -945,6 +1051,23 @@ Qed.
 Definition AllRes (d : dstate) : Prop :=
   forall z, (d_cur d = Some z \/ In z (d_ready d)) -> resumable d z.
 
+Lemma okw_drop_wcalc d nd c :
+  node_okw d nd -> (In c (n_wcalc nd) -> recd d nd c /\ mrgd d nd c) ->
+  node_okw d (nd_wait nd (n_wrun nd) (rem c (n_wcalc nd))).
+Proof.
+  intros [H1 H2 H3 H4 H5 H6] Hc. split; simpl; auto.
+  - intros x Hx. destruct (H1 x Hx) as [H|[H|[H|H]]]; auto.
+    rewrite in_app_iff in H. destruct H as [H|H]; [right; right; left; apply in_app_iff; auto|].
+    destruct (N.eqb_spec x c) as [->|Hne].
+    + right; right; right. apply (recd_fields d nd); [reflexivity|reflexivity|]. apply Hc. exact H.
+    + right; right; left. apply in_app_iff. right. apply rem_In. auto.
+  - intros L. destruct (H2 L) as (A & B & C). rewrite C. auto.
+  - intros x Hx. destruct (H6 x Hx) as [H|[H|[H|H]]]; auto.
+    destruct (N.eqb_spec x c) as [->|Hne].
+    + right; right; right. apply (mrgd_fields d nd); [reflexivity|reflexivity|]. apply Hc. exact H.
+    + right; right; left. apply rem_In. auto.
+Qed.
+
 Lemma wake_node_ok d w fin :
   Inv d -> final d fin ->
   node_ok d w (wake_node (node_of d w) fin (st_of d fin)) /\
@@ -954,23 +1077,27 @@ Lemma wake_node_ok d w fin :
    n_pc (node_of d w) = PSetupWaited -> n_wrun (wake_node (node_of d w) fin (st_of d fin)) = []).
 Proof.
   intros HI Hfin.
-  destruct (node_of_ok d w HI) as [Hacc Hlate Hsetup Hwsel Hearly].
+  destruct (node_of_ok d w HI) as [Hacc Hlate Hsetup Hwsel Hearly Hsst Hmrg].
   set (nd := node_of d w) in *. set (fs := st_of d fin) in *.
   unfold Dispatch.wake_node, Dispatch.wake_ready.
   destruct (parent_status_fields nd fin fs) as (f1 & f2 & f3 & f4 & f5 & f6 & f7 & f8 & f9). cbv zeta in *.
   set (nw := parent_status nd fin fs) in *.
   set (nw1 := nd_wait nw (rem fin (n_wrun nw)) (rem fin (n_wcalc nw))).
-  assert (Hokw1 : node_okw d nw1).
-  { split; unfold nw1; simpl; rewrite ?f1, ?f2, ?f5, ?f6, ?f7, ?f8, ?f9; auto.
+  set (nwA := nd_wait nw (rem fin (n_wrun nw)) (n_wcalc nw)).
+  assert (Hrecfin : recd d nw fin) by (unfold nw, fs; apply recd_parent_self; exact Hfin).
+  assert (HokwA : node_okw d nwA).
+  { split; unfold nwA; simpl; rewrite ?f1, ?f2, ?f5, ?f6, ?f7, ?f8, ?f9; auto.
     - intros x Hx. destruct (Hacc x Hx) as [H|[H|[H|H]]]; auto.
       + destruct (N.eqb_spec x fin) as [->|Hne].
-        * right; right; right. apply (recd_fields d nw); [reflexivity|reflexivity|].
-          unfold nw, fs. apply recd_parent_self. exact Hfin.
+        * right; right; right. apply (recd_fields d nw); [reflexivity|reflexivity|]. exact Hrecfin.
         * right; right; left. rewrite in_app_iff in *. rewrite f3, f4.
-          destruct H as [H|H]; [left|right]; apply rem_In; auto.
+          destruct H as [H|H]; [left; apply rem_In; auto|right; exact H].
       + right; right; right. apply (recd_fields d nw); [reflexivity|reflexivity|].
         unfold nw. apply recd_parent. exact H.
-    - intros L. destruct (Hlate L) as (A & B & C & D). rewrite f4, C. auto. }
+    - intros L. destruct (Hlate L) as (A & B & C & D). rewrite f4, C. auto.
+    - intros c Hc. destruct (Hmrg c Hc) as [H|[H|[H|H]]]; auto.
+      + right; right; left. rewrite f4. exact H.
+      + right; right; right. apply (mrgd_fields d nd); auto. }
   destruct (mem fin (n_wcalc nd)) eqn:Ec.
   - (* a calc_dep finished: its results are merged *)
     assert (Hnl : late (n_pc nd) = false).
@@ -978,25 +1105,35 @@ Proof.
       rewrite C in Ec. discriminate. }
     destruct (process_calc_fields nw1 fin fs) as (g1 & g2 & g3 & g4 & g5 & g6 & g7 & g8 & g9). cbv zeta in *.
     assert (Hpc : n_pc (process_calc nw1 fin fs) = n_pc nd) by (rewrite g1; unfold nw1; simpl; exact f1).
+    assert (Hp : node_okw d (process_calc nw1 fin fs)).
+    { set (P := process_calc nwA fin fs).
+      assert (HlA : late (n_pc nwA) = false) by (unfold nwA; simpl; rewrite f1; exact Hnl).
+      pose proof (process_calc_okw d nwA fin fs HlA HokwA) as HP. fold P in HP.
+      destruct (process_calc_fields nwA fin fs) as (a1 & a2 & a3 & a4 & a5 & a6 & a7 & a8 & a9). cbv zeta in *. fold P in a1, a2, a3, a4, a5, a6, a7, a8, a9.
+      assert (EqP : process_calc nw1 fin fs = nd_wait P (n_wrun P) (rem fin (n_wcalc P))).
+      { unfold P, Dispatch.process_calc, nw1, nwA. destruct (calc_values_visible fs); reflexivity. }
+      rewrite EqP. apply okw_drop_wcalc; auto. intros _. split.
+      - apply (recd_fields d nw); [rewrite a7; reflexivity|rewrite a8; reflexivity|exact Hrecfin].
+      - split; [exact Hfin|]. intros V. apply (process_calc_mrg nwA fin fs V). }
     split; [|split; [exact Hpc|split]].
-    + pose proof (process_calc_okw d nw1 fin fs) as Hp.
-      assert (Hl1 : late (n_pc nw1) = false) by (unfold nw1; simpl; rewrite f1; exact Hnl).
-      specialize (Hp Hl1 Hokw1). destruct Hp as [P1 P2 P3 P4].
+    + destruct Hp as [P1 P2 P3 P4 P5 P6].
       split; auto.
       * rewrite Hpc, Hnl. discriminate.
       * rewrite Hpc. intros E. rewrite E in Hnl. discriminate.
     + intros y Hy. rewrite g3 in Hy. unfold nw1 in Hy. simpl in Hy. rewrite f3 in Hy.
       apply rem_In in Hy. exact Hy.
     + intros _ E. rewrite E in Hnl. discriminate.
-  - split; [|split; [unfold nw1; simpl; exact f1|split]].
-    + destruct Hokw1 as [P1 P2 P3 P4]. split; auto.
+  - assert (Hokw1 : node_okw d nw1).
+    { apply (okw_drop_wcalc d nwA fin HokwA). unfold nwA. simpl. rewrite f4. intros Hin.
+      apply mem_In in Hin. rewrite Hin in Ec. discriminate. }
+    split; [|split; [unfold nw1; simpl; exact f1|split]].
+    + destruct Hokw1 as [P1 P2 P3 P4 P5 P6]. split; auto.
       * unfold nw1 at 1 2 3. simpl. rewrite f1. intros L. destruct (Hlate L) as (A & B & C & D).
         destruct (P2 ltac:(unfold nw1; simpl; rewrite f1; exact L)) as (A' & B' & C').
         repeat split; auto. intros Np. unfold nw1. simpl. rewrite f3, (D Np). reflexivity.
       * unfold nw1 at 1. simpl. rewrite f1. intros E x Hx. destruct (Hsetup E x Hx) as [H|H].
         -- destruct (N.eqb_spec x fin) as [->|Hne].
-           ++ right. apply (recd_fields d nw); [reflexivity|reflexivity|].
-              unfold nw, fs. apply recd_parent_self. exact Hfin.
+           ++ right. apply (recd_fields d nw); [reflexivity|reflexivity|]. exact Hrecfin.
            ++ left. unfold nw1. simpl. rewrite f3. apply rem_In. auto.
         -- right. apply (recd_fields d nw); [reflexivity|reflexivity|]. unfold nw. apply recd_parent. exact H.
     + intros y Hy. unfold nw1 in Hy. simpl in Hy. rewrite f3 in Hy. apply rem_In in Hy. exact Hy.
@@ -1203,7 +1340,7 @@ Definition disp_post (d d' : dstate) (y : dyield) : Prop :=
                (n_pc (node_of d' k) = PAfterSelf \/ n_pc (node_of d' k) = PDone) /\
                (n_pc (node_of d' k) = PAfterSelf -> st_of d' k = SNone) /\ PreX d' k /\
                deps_recd d' k /\ (n_pc (node_of d' k) = PDone -> setup_recd d' k) /\
-               (n_pc (node_of d' k) = PDone -> st_of d' k = SRun)
+               (n_pc (node_of d' k) = PDone -> st_of d' k = SRun) /\ calcs_mrgd d' k
   | _ => Pre d'
   end.
 
@@ -1271,13 +1408,13 @@ Proof.
            apply addset_In in Hz. destruct Hz as [->|Hz]; apply Ex1; auto.
       * exact Hd.
     + (* the task is handed to the runner *)
-      inversion Hd; subst. destruct (Y1 eq_refl) as (Y2 & Y3 & Y4 & Y5 & Y6 & Y7 & Y8).
+      inversion Hd; subst. destruct (Y1 eq_refl) as (Y2 & Y3 & Y4 & Y5 & Y6 & Y7 & Y8 & Y9).
       split; [exact I1|]. split.
       { intros z [Hz|Hz]; [rewrite q3 in Hz; inversion Hz; subst; apply (Q1 ltac:(discriminate))|].
         rewrite q1 in Hz. apply ResReady; exact Hz. }
       split. { split; rewrite ?q1, ?q2, ?q3; auto. all: try (intros z Hz; apply Ex1; destruct Hz as [Hz|[Hz|Hz]]; auto). }
       split; [apply (sr_st _ _ _ R1)|]. split; [apply (sr_all _ _ _ R1)|]. split; [exact Sp1|]. split; [apply Sp2; reflexivity|]. split; [rewrite q3; reflexivity|]. split; auto. split; auto. split; auto. split; auto.
-      split; [|split; [exact Y6|split; [exact Y7|exact Y8]]].
+      split; [|split; [exact Y6|split; [exact Y7|split; [exact Y8|exact Y9]]]].
       intros z Hz Hpc. rewrite (sr_st _ _ _ R1). apply HP.
       destruct (sr_other _ _ _ R1 z Hz) as [E _]. congruence.
     + (* generator exhausted *)
